@@ -48,6 +48,17 @@ static Fields gen(Tape &t) {
     f.set("k." + std::to_string(i), k);
     if (!t.chance(1, 4)) f.set("v." + std::to_string(i), t.chance(1, 5) ? "" : g_qtext(t, 8));
   }
+  // one list in 24 has a key or a value of about 1024 / 2048 / 2500 / 4096 characters (buffers and thresholds of that
+  // order: stack buffers for short texts, "small" fast paths), plain or with one character that needs escaping
+  if (t.chance(1, 24)) {
+    static const int lens[] = {1023, 1024, 1025, 2047, 2048, 2049, 2500, 4095, 4096, 4097};
+    std::string big((size_t)lens[t.below(10)], 'k');
+    if (t.coin()) big[big.size() / 2] = " \n&%="[t.below(5)];
+    int at = (int)t.below((uint32_t)n);
+    std::string which = (t.coin() && f.has("v." + std::to_string(at)) ? "v." : "k.") + std::to_string(at);
+    for (auto &kv : f.kv) if (kv.first == which) kv.second = esc(big);
+    f.seti("kilo", 1);
+  }
   // UriBool is an int: besides URI_FALSE / URI_TRUE one case in eight passes another non-zero value for a flag
   // (what a C caller writing `flags & MASK` passes). Only the clauses that do not depend on how such a value is
   // read are then asserted: never beyond maxChars, chars-required sufficient, written == length + 1, and the text
@@ -111,7 +122,7 @@ static std::string expect_after(const std::string &s, bool nb, int bc) {
   return o;
 }
 
-static GuardBuf &gb() { static GuardBuf g(64); return g; }
+static GuardBuf &gb() { static GuardBuf g(160); return g; }  // 640 KiB: one item of ~4100 characters, worst case six-fold, four bytes wide, and then some
 
 template <class A> struct ListHolder {
   using Ch = typename A::Ch;
